@@ -44,6 +44,34 @@ T = {
              needs="a nested call whose child retries, on the SQLite stack, the child being a different task than the workflow's main task.",
              caught_by={"C19": "C19/mem-vs-sqlite/outcome, executions (programs mixing two tasks were added because the first version used one task for every node)"}, missed_by={"C19 (before two-task programs)": "with a single task the child is the workflow's own main task and the bookkeeping path is not taken"}),
 }
+
+T.update({
+ "C01": dict(breaks=["C01", "C02"], summary="MemOrchestrator._atomic_status_transition reads the current record before taking the per-invocation lock ('fail fast for unknown ids'): validation and write happen under the lock but against a possibly stale record.",
+             needs="two threads requesting a change of the same invocation, both reading the record before either enters the critical section (e.g. two runners REGISTERED->PENDING: both accepted, PENDING->PENDING by a non-owner, no status error).",
+             caught_by={"C01": "C01/conc/mem/double-claim, illegal-step/ownership (concurrent stratum added because C01 was sequential only and missed this change)", "C02": "C02/mem/double-claim/PENDING->PENDING"}, missed_by={"C01 (before the concurrent stratum)": "every C01 scenario issued one request at a time"}),
+ "C07": dict(breaks=["C07", "C06"], summary="MemOrchestrator.filter_by_key_arguments intersects in place on the live index set (dropped .copy()): a look-up silently removes still-REGISTERED invocations from the argument index. (Same edit as seeded/C06, found independently.)",
+             needs="registration key with two or more arguments; a look-up whose intersection is a strict subset of the first pair's set; then a re-submission of the removed key.",
+             caught_by={"C07": "C07/mem/duplicate-created/*, different-args-not-rejected/KEYS", "C06": "C06/mem/two-running/*"}, missed_by={"C16": "the equivalence alphabet queries by arguments with one key only"}),
+ "C08": dict(breaks=["C08"], summary="SQLiteBroker.route_invocations inserts the batch in one transaction stamped with time.time() (Unix seconds) while single routings keep julianday('now'): every single-routed message sorts ahead of every batch-routed one still queued.",
+             needs="a batch routing and a later single routing in the queue at the same time.",
+             caught_by={"C08": "C08/seq/sqlite/retrieve/wrong-result, C08/conc/sqlite/not-linearizable"}, missed_by={}),
+ "C12": dict(breaks=["C12"], summary="calculate_time_slot's validity guard tests margin > slot instead of end <= start: with margin == slot every window is empty and no runner is ever authorised.",
+             needs="runner count exactly interval / margin (5 runners with the default 5 min / 1 min).",
+             caught_by={"C12": "C12/*/runner-never-authorised-in-cycle, differs-from-model/missing"}, missed_by={}),
+ "C14": dict(breaks=["C14"], summary="PersistentProcessRunner prunes dead workers only when at least one worker is alive (walrus guard copied from the heartbeat code): when all workers die at once nothing is pruned or respawned.",
+             needs="every worker of the pool dead at the same loop iteration.",
+             caught_by={"C14": "C14/PPR/dead-workers-still-tracked, pool-below-capacity"}, missed_by={}),
+ "C15": dict(breaks=["C15"], summary="content keys of serialised values longer than 16 KiB are derived from the length plus the first and last 8 KiB: two large values of equal length that differ only in the middle get the same reference (store overwrite, equal call ids, wrong argument delivered).",
+             needs="two externalised values > 16384 characters, same length, differing in the middle only.",
+             caught_by={"C15": "C15/*/reference-resolves-to-other-content/near-collision/* (near-collision pairs now differ at head, middle or tail and go up to 70 000 characters; the first version had common prefixes up to 4 KiB and different tails only)"}, missed_by={"C15 (before)": "near-collision pairs were small and differed at the tail"}),
+ "C17": dict(breaks=["C17"], summary="delete_tables_with_prefix escapes LIKE wildcards but drops the post-filter that skipped tables of another app whose own prefix starts with ours: purging a component of app A wipes app B when B's id is literally A's storage prefix for that component.",
+             needs="app ids where one is the other's table prefix; purge of the matching component.",
+             caught_by={"C17": "C17/sqlite/foreign-state-changed/purge-app/*"}, missed_by={}),
+ "C20": dict(breaks=["C20", "C16"], summary="MemOrchestrator.count_invocations intersects in place on the live task index when both task_id and statuses are given: GET /invocations/?task_id=..&status=.. deletes every invocation of the task in another status from the index.",
+             needs="in-memory orchestrator; the combination of both filters on that one route; invocations of the task in another status.",
+             caught_by={"C20": "C20/mem/inv_count/GET /invocations/", "C16": "C16/differs/count_invocations, get_existing_invocations"}, missed_by={"C07": "not targeted (C07 never counts with both filters)"}),
+})
+
 def main():
     suite = {}
     p = os.path.join(V, "seeded", "suite_results.json")
